@@ -8,8 +8,8 @@ import re
 ROOT = os.path.dirname(os.path.dirname(os.path.abspath(__file__)))
 S = os.path.join(ROOT, "seeded")
 desc = json.load(open(os.path.join(S, "round2_descriptions.json")))
-for extra in ("round3_descriptions.json", "round4_descriptions.json", "round5_descriptions.json", "round6_descriptions.json"):
-    if os.path.exists(os.path.join(S, extra)):
+for extra in sorted(os.listdir(S)):
+    if re.fullmatch(r"round\d+_descriptions\.json", extra) and extra != "round2_descriptions.json":
         desc.update(json.load(open(os.path.join(S, extra))))
 INITIALLY_MISSED = set("""C01-2 C03-1 C06-1 C06-2 C07-1 C07-2 C08-1 C12-2 C13-2 C14-1 C14-2 C15-1 C16-1 C16-2 C17-2 C18-2 C19-1 C19-2 C20-2
 C01-4 C02-3 C03-3 C04-4 C05-4 C06-3 C09-3 C09-4 C10-3 C10-4 C11-3 C11-4 C13-3 C14-3 C14-4 C15-3 C15-4 C16-3 C16-4 C17-3 C18-4 C19-3 C20-3 C20-4
